@@ -15,6 +15,7 @@ import (
 
 	"github.com/kubewharf/kubebrain/pkg/backend"
 	"github.com/kubewharf/kubebrain/pkg/backend/election"
+	"github.com/kubewharf/kubebrain/pkg/server/service/leader"
 	"github.com/kubewharf/kubebrain/pkg/storage"
 
 	"verif/internal/harness"
@@ -28,7 +29,7 @@ func init() {
 	Registry["C14"] = &Prop{
 		Plan: func(tier string) Plan {
 			return Plan{Level: "exploration", NCases: c14EnumCases + pick(tier, 24, 3000), Batch: 4, CaseTimeout: 120,
-				Rule: "cases 0-7: ALL interleavings of the steps of 3 candidates (34650) and of 2 candidates (70), each candidate running Get->(Create|Update) twice as client-go's tryAcquireOrRenew issues them (plus all 252 interleavings of 2 candidates running Get,write,write,Get,write, i.e. a rejected write retried without a fresh Get; and all interleavings of 2 x Get,write,Get,release / 2 x Get,write,release / 3 x Get,write,release, where release is client-go's Update naming no holder sent without a fresh Get), on memkv through the real resourcelock.Interface, split over 8 cases and checked in lock-step against a register model (Create succeeds iff absent; Update succeeds iff the stored bytes equal what this candidate last read; stored record == last successful write; uncontended Get->Update succeeds). " +
+				Rule: "cases 0-7: ALL interleavings of the steps of 3 candidates (34650) and of 2 candidates (70), each candidate running Get->(Create|Update) twice as client-go's tryAcquireOrRenew issues them (plus all 252 interleavings of 2 candidates running Get,write,write,Get,write, i.e. a rejected write retried without a fresh Get; and all interleavings of 2 x Get,write,Get,release / 2 x Get,write,release / 3 x Get,write,release, where release is client-go's Update naming no holder sent without a fresh Get; and all 20 interleavings of 2 x Get,info,write on locks of real backends, where info is a request for the node's election info answered by its election service between the loop's Get and its write), on memkv through the real resourcelock.Interface, split over 8 cases and checked in lock-step against a register model (Create succeeds iff absent; Update succeeds iff the stored bytes equal what this candidate last read; stored record == last successful write; uncontended Get->Update succeeds). " +
 					"further cases: PRNG samples of 300 interleavings on Badger / TiKV mock / locks obtained from real backends, and concurrent goroutine stress with commit delays whose recorded history is checked with porcupine against a compare-and-swap register. Every record written carries a unique counter. " +
 					"non-trivial = interleaving in which >=2 candidates wrote from the same observed record (so at least one write had to fail); distinct by interleaving",
 				Assumptions: []string{"lease timing is not modelled: candidates always try to take the lock, which exercises strictly more write attempts than client-go would make",
@@ -67,7 +68,8 @@ var c14Prefix int64
 type candidate struct {
 	id       string
 	lock     resourcelock.Interface
-	lastRead []byte // model: what this candidate last read (or created itself)
+	info     leader.LeaderElection // the node's election service over the same lock (only for locks obtained from backends)
+	lastRead []byte                // model: what this candidate last read (or created itself)
 	hasRead  bool
 	seq      int
 }
@@ -83,6 +85,8 @@ func newCandidates(kv storage.KvStorage, n int, viaBackend bool) ([]*candidate, 
 			nd := harness.NewNode(harness.NodeOpts{KV: kv, Config: backend.Config{Prefix: prefix, Identity: id}})
 			nodes = append(nodes, nd)
 			l = nd.B.GetResourceLock()
+			cs = append(cs, &candidate{id: id, lock: l, info: leader.NewLeaderElection(nd.B, nd.Metrics, func(context.Context) {}, func() {})})
+			continue
 		} else {
 			l = election.NewResourceLockManager(election.Config{Prefix: prefix, Identity: id, Timeout: time.Second}, kv).GetResourceLock()
 		}
@@ -101,6 +105,16 @@ func (cd *candidate) record() resourcelock.LeaderElectionRecord {
 // Program per round: "g" (Get) then "w" (Create if the Get said not-found, else Update).
 func lockStep(kv storage.KvStorage, key []byte, stored *[]byte, cd *candidate, step byte, sawNotFound *bool) (string, string, bool) {
 	switch step {
+	case 'i':
+		// somebody asks the node which node leads (/election, follower refusals, the revision syncer): a look at the
+		// lock that is not part of the election loop and must not change what that loop believes it has observed
+		if cd.info != nil {
+			_, _ = cd.info.GetElectionInfo()
+			_ = cd.info.GetLeaderInfo()
+		} else {
+			_ = cd.lock.Describe()
+		}
+		return cd.id + ":info", "", false
 	case 'g':
 		rec, err := cd.lock.Get()
 		if *stored == nil {
@@ -299,6 +313,20 @@ func runC14Enumerate(c *harness.Case) {
 			})
 		}
 	}
+	// election-info requests between a candidate's Get and its write, on locks obtained from real backends whose
+	// election service answers them: all 20 interleavings of 2 x (Get, info, write)
+	if c.Index == 2 {
+		interleavingsLen(2, 3, func(order []int) bool {
+			fw, ok := runInterleavingProg(c, eng.KV, order, 2, true, "memkv-via-backend", "giw")
+			if fw > 0 {
+				c.AddExecution(fmt.Sprintf("memkv-via-backend/info/%v", order))
+			} else {
+				c.AddExecution("")
+			}
+			c.Stat("info_request_interleavings", 1)
+			return ok
+		})
+	}
 	c.Stat("memkv_interleavings_enumerated", c.R.Evals)
 	c.AddSet("engines", "memkv")
 }
@@ -342,7 +370,23 @@ func runC14Sample(c *harness.Case) {
 		}
 		var fw int
 		var ok bool
-		if i%5 == 4 {
+		if i%7 == 6 {
+			// programs with an election-info request between the loop's Get and its write
+			prog := []string{"giwgw", "gwgiw", "gigiw"}[r.Intn(3)]
+			order = order[:0]
+			rem4 := make([]int, nCand)
+			for j := range rem4 {
+				rem4[j] = len(prog)
+			}
+			for len(order) < len(prog)*nCand {
+				ci := r.Intn(nCand)
+				if rem4[ci] > 0 {
+					rem4[ci]--
+					order = append(order, ci)
+				}
+			}
+			fw, ok = runInterleavingProg(c, eng.KV, order, nCand, via, label, prog)
+		} else if i%5 == 4 {
 			// programs ending in a release without a fresh Get
 			prog := []string{"gwr", "gwgr", "gwgwr"}[r.Intn(3)]
 			order = order[:0]
